@@ -353,6 +353,21 @@ def check_df_wrapper(ctx, fname, callee, rule, extra_args=(), shift=False):
                     d = v.info["data"]
                     if not (isinstance(d, ArrParam) and d.name == "col_" + col):
                         bad = bad or f"column {keys[0]!r} is computed from {d!r}, not from column {col!r}"; continue
+                    if not shift:
+                        # the worker is called as worker(column values, order=order): any further argument that is not None changes what is fitted
+                        wfn_ = repo.get(f"{DSP}::{callee}")
+                        pn_ = [a_.arg for a_ in wfn_.args.args]
+                        given = dict(v.info.get("kw") or {})
+                        for i_, a_ in enumerate(v.info.get("args") or []):
+                            if i_ + 1 < len(pn_): given.setdefault(pn_[i_ + 1], a_)
+                        for k_, val_ in given.items():
+                            if k_ == "order" or val_ is None: continue
+                            lv_ = [l_ for _, l_ in pv_leaves(val_)] if isinstance(val_, PV) else [val_]
+                            if any(l_ is not None and not is_opaque(l_) for l_ in lv_) or (isinstance(val_, PV) and any(l_ is not None for l_ in lv_)):
+                                bad = bad or (f"column {col!r}: {callee} also receives {k_}={val_!r}"[:200] + f", so the wrapper's result is not {callee}(column values, order) "
+                                              "(a frame with a non-default index is fitted against that index)")
+                            else:
+                                unk = unk or f"column {col!r}: {callee} also receives {k_}={val_!r}"[:200]
                     if shift:
                         a0 = to_x(v.info["args"][0]) if v.info["args"] and not isinstance(v.info["args"][0], PV) and not is_opaque(v.info["args"][0]) else None
                         if a0 is None or not a0.eq(X.var("seconds") * X.var("fs")):
